@@ -51,6 +51,103 @@ fn check_one(spec: &TlSpec, rt: &RefTl, tl: &PTimeline, start: Option<&P>, t: f3
     }
 }
 
+
+const NGRID5: [f32; 5] = [0.0, 0.1, 0.3, 0.7, 1.0];
+
+/// Non-dyadic companion family: positions 0.1/0.3/0.7, cycles 0.3/3/0.7/7, delay 0.1, built-in
+/// Bezier easings, sample times that are not representable fractions. Same reference, same
+/// tolerance; samples within the f32 jitter window of a discontinuity of the time map (cycle wrap,
+/// end, first-pass boundary when a start value is substituted) are skipped and counted.
+fn nondyadic_pass(nmax: usize) -> Acc {
+    let timings = [
+        Timing::new(0.3, 0.0, Rep::None, false),
+        Timing::new(3.0, 0.1, Rep::Times(2), false),
+        Timing::new(0.7, 0.1, Rep::None, true),
+        Timing::new(0.3, 0.1, Rep::Infinite, true),
+        Timing::new(7.0, 0.0, Rep::Times(1), true),
+    ];
+    let grids: Vec<Vec<f32>> = timings
+        .iter()
+        .map(|t| {
+            let cycles = match t.rep {
+                Rep::None => 1,
+                Rep::Times(n) => n + 1,
+                Rep::Infinite => 3,
+            };
+            let mut v = vec![0.0, t.delay * 0.5];
+            for j in 0..(29 * cycles + 6) {
+                v.push(t.delay + t.cycle * (j as f32 + 0.37) / 29.0);
+            }
+            v
+        })
+        .collect();
+    let init = P::sentinel();
+    let vs = vstar();
+    let mut items: Vec<(usize, u64)> = vec![];
+    for n in 0..=nmax {
+        let c = count_t(n, 5);
+        let mut s0 = 0;
+        while s0 < c {
+            items.push((n, s0));
+            s0 += CHUNK;
+        }
+    }
+    par_fold(
+        items.len(),
+        Acc::default,
+        |i, acc| {
+            let (n, s0) = items[i];
+            for idx in s0..(s0 + CHUNK).min(count_t(n, 5)) {
+                // easing alphabet: Ease (4) / InQuad (6) per keyframe, default Linear or InOutCubic (5)
+                let kfs = decode_t(n, &NGRID5, idx, 4, 6, false).unwrap();
+                for (ti, th) in timings.iter().enumerate() {
+                    let spec = TlSpec { kfs: kfs.clone(), default_easing: if idx % 2 == 0 { 0 } else { 5 }, timing: *th };
+                    let rt = RefTl::new(&spec);
+                    let tl = spec.build();
+                    let mut tls = tl.clone();
+                    tls.start_with(&vs);
+                    acc.timelines += 2;
+                    let skip_start = rt.a.dup_at_zero || rt.k.dup_at_zero;
+                    let rank = (1u64 << 60) | (n as u64) << 40 | idx << 8 | ti as u64;
+                    for &t in &grids[ti] {
+                        let w = 4.0 * (ulp32(t) as f64) + 4.0 * (ulp32((t - th.delay).abs().max(f32::MIN_POSITIVE)) as f64);
+                        let (lo, hi) = (ref_phase64(th, t as f64 - w), ref_phase64(th, t as f64 + w));
+                        let same_side = match (lo, hi) {
+                            (Phase::NotStarted, Phase::NotStarted) => true,
+                            (Phase::Ended { .. }, Phase::Ended { .. }) => true,
+                            (Phase::Active { cycle: c1, reversing: r1, .. }, Phase::Active { cycle: c2, reversing: r2, .. }) => c1 == c2 && (r1 == r2 || th.reverse),
+                            // NotStarted -> Active at the delay is continuous (position 0 on both sides)
+                            (Phase::NotStarted, Phase::Active { cycle: 0, reversing: false, .. }) => true,
+                            _ => false,
+                        };
+                        if !same_side {
+                            acc.ambiguous_skipped += 1;
+                            continue;
+                        }
+                        let ph = ref_phase(th, t);
+                        check_one(&spec, &rt, &tl, None, t, &ph, &init, rank, acc);
+                        if !skip_start {
+                            // the substituted start value switches off at the reversal peak too
+                            let peak = matches!((lo, hi), (Phase::Active { reversing: r1, .. }, Phase::Active { reversing: r2, .. }) if r1 != r2);
+                            if !peak {
+                                check_one(&spec, &rt, &tls, Some(&vs), t, &ph, &init, rank, acc);
+                            }
+                        }
+                    }
+                }
+            }
+        },
+        |a, b| {
+            a.sink.merge(b.sink);
+            a.timelines += b.timelines;
+            a.evals += b.evals;
+            a.nontrivial += b.nontrivial;
+            a.ambiguous_skipped += b.ambiguous_skipped;
+            a.outcomes.extend(b.outcomes);
+        },
+    )
+}
+
 pub fn run(run: Run) -> ! {
     let nmax = if run.is_thorough() { 5 } else { 3 };
     let thetas = theta();
@@ -126,13 +223,22 @@ pub fn run(run: Run) -> ! {
             }
         },
     );
+    let mut acc = acc;
+    let nd = nondyadic_pass(if run.is_thorough() { 4 } else { 3 });
+    let (nd_evals, nd_skipped) = (nd.evals, nd.ambiguous_skipped);
+    acc.sink.merge(nd.sink);
+    acc.timelines += nd.timelines;
+    acc.evals += nd.evals;
+    acc.nontrivial += nd.nontrivial;
     let mut cov = Map::new();
+    cov.insert("non_dyadic_family_evaluations".into(), json!(nd_evals));
+    cov.insert("non_dyadic_family_skipped_within_jitter_of_a_discontinuity".into(), json!(nd_skipped));
     cov.insert("states".into(), json!(acc.timelines));
     cov.insert("transitions".into(), json!(acc.evals));
     cov.insert("traces_validated_against_impl".into(), json!(acc.evals));
     cov.insert("evaluations".into(), json!(acc.evals));
     cov.insert("distinct_nontrivial".into(), json!(acc.nontrivial));
-    cov.insert("rule".into(), json!(format!("every keyframe list of size 0..={nmax} over positions {{0,1/4,1/2,3/4,1}} (ascending insertion, repeated positions included) x per-keyframe property subset in {{none,a,k,a+k}} x per-keyframe easing in {{none,x^2,1-(1-x)^2}} x default easing in {{Linear,OutBack}} (and, below the largest size, the same lists with the f64 property d in place of a) x 6 timing configurations x {{no start_with, start_with(v*)}} x time grid tau (32 points per cycle, all phases, 1e6, f32::MAX); states = timelines built, transitions = Timeline::update calls, each compared with RefTimeScale.RefCss; a (case,property) is non-trivial when the position lies strictly between two defining keyframes with different values")));
+    cov.insert("rule".into(), json!(format!("every keyframe list of size 0..={nmax} over positions {{0,1/4,1/2,3/4,1}} (ascending insertion, repeated positions included) x per-keyframe property subset in {{none,a,k,a+k}} x per-keyframe easing in {{none,x^2,1-(1-x)^2}} x default easing in {{Linear,OutBack}} (and, below the largest size, the same lists with the f64 property d in place of a) x 6 timing configurations x {{no start_with, start_with(v*)}} x time grid tau (32 points per cycle, all phases, 1e6, f32::MAX); states = timelines built, transitions = Timeline::update calls, each compared with RefTimeScale.RefCss; plus a non-dyadic companion family (positions 0,0.1,0.3,0.7,1; cycles 0.3,3,0.7,7; delay 0.1; built-in easings Ease/InQuad/InOutCubic; 29 irrational-offset samples per cycle) under the same tolerance, skipping samples within the f32 jitter window of a discontinuity of the time map; a (case,property) is non-trivial when the position lies strictly between two defining keyframes with different values")));
     cov.insert("exhaustive".into(), json!(true));
     cov.insert("max_keyframes".into(), json!(nmax));
     cov.insert("ambiguous_positions_skipped".into(), json!(acc.ambiguous_skipped));
